@@ -181,7 +181,9 @@ class ZConfigParser:
         defvalue = ''
         if len(parts) == 2:
             defvalue = parts[1]
-        if not isname(defname):
+        # check the name as written: case folding can turn a character
+        # that is not allowed (U+212A KELVIN SIGN) into one that is
+        if not (isname(parts[0]) and isname(defname)):
             self.error("not a substitution legal name: " + repr(defname))
         defvalue = self.replace(defvalue)
         if defname in self.defines:
